@@ -31,7 +31,7 @@ MAX_INCONCLUSIVE = 0.5
 
 def strategy(ctx):
     rng = ctx.rng("c04-pool")
-    size = 3 if ctx.tier == "quick" else 24
+    size = 3 if ctx.tier == "quick" else 6
     pool = []
     for _ in range(size):
         cfg = ssmcase.draw_structure(rng, strategies=("filter", "fixedinterval"), nmax=6, dmax=3, steps=(2, 8), inits=("exact",),
